@@ -145,12 +145,170 @@ J gen_transport_fault(Rng &g, bool call_indexed = true)
 	return f;
 }
 
+// Two caches of one group whose polls stay aligned (same timers, fixed latency). Cache 0 goes through reloads (restart with
+// a new session / lost history / Cache Reset, then the full set); cache 1 changes its data at every poll. The last bytes of
+// the answers of one cache are held back by the network until the other socket has read (almost) all of the answer to be
+// applied at that moment, so that the two socket threads enter their apply phases at the same simulated instant and the
+// scheduler interleaves them.
+J gen_world_pair(Rng &g, uint64_t seed, const J &opts)
+{
+	std::string focus = opts.gets("focus", "C03");
+	J plan = J::obj();
+	plan["scn"] = "world";
+	plan["seed"] = (long long)(seed & 0x3fffffffffffffffull);
+	plan["focus"] = focus;
+	J sim = gen_sim_part(g, seed, false, 0);
+	sim["max_sim_s"] = 200ll * 86400ll;
+	sim["boot_s"] = (long long)g.pick(std::vector<long long>{0, 1000000});
+	sim["switch_permille"] = (long long)g.pick(std::vector<long long>{1000, 500, 200});
+	sim["preempt_mean"] = (long long)g.pick(std::vector<long long>{0, 0, 7, 40, 300});
+	plan["sim"] = sim;
+	J cfg = J::obj();
+	long long refresh = g.pick(std::vector<long long>{5, 10, 30}), retry = g.pick(std::vector<long long>{1, 3}), expire = 7200;
+	cfg["refresh"] = refresh;
+	cfg["retry"] = retry;
+	cfg["expire"] = expire;
+	cfg["callbacks"] = 1;
+	cfg["iv_mode"] = 0;
+	plan["cfg"] = cfg;
+	J groups = J::arr();
+	J gr = J::obj();
+	gr["pref"] = 1;
+	J ss = J::arr();
+	ss.push(0);
+	ss.push(1);
+	gr["sockets"] = ss;
+	groups.push(gr);
+	plan["groups"] = groups;
+	int npolls = (int)g.range(2, 6);
+	// which polls of cache 0 / cache 1 are reloads
+	std::vector<int> reload0((size_t)npolls + 1, 0), reload1((size_t)npolls + 1, 0);
+	for (int n = 1; n <= npolls; n++) {
+		reload0[(size_t)n] = g.chance(650);
+		reload1[(size_t)n] = g.chance(150);
+	}
+	std::vector<std::vector<int>> idx(2, std::vector<int>((size_t)npolls + 1, -1)); // script index of the answer applied at poll n
+	J caches = J::arr();
+	std::vector<J> scripts(2);
+	for (int ci = 0; ci < 2; ci++) {
+		Pool P = make_pool(g, ci);
+		J c = J::obj();
+		c["session"] = (long long)g.below(65536);
+		c["serial"] = (long long)g.pick(std::vector<long long>{0, 5, 4294967294ll, (long long)g.below(1000000)});
+		c["vmax"] = 1;
+		J data = J::arr();
+		int nd = (int)g.range(2, (int64_t)P.pfx.size());
+		for (int i = 0; i < nd; i++)
+			data.push(P.pfx[(size_t)i].json());
+		c["data"] = data;
+		J keys = J::arr();
+		for (size_t i = 0; i < P.keys.size(); i++)
+			if (g.chance(500))
+				keys.push(key_json(P.keys[i]));
+		c["keys"] = keys;
+		J iv = J::arr();
+		iv.push(refresh);
+		iv.push(retry);
+		iv.push(expire);
+		c["iv"] = iv;
+		J script = J::arr();
+		script.push(J::obj()); // initial full set
+		const std::vector<int> &rl = ci == 0 ? reload0 : reload1;
+		for (int n = 1; n <= npolls; n++) {
+			J edits = gen_edits(g, P, ci == 0 ? 5 : 8);
+			if (ci == 1 && edits.size() == 0) {
+				J one = J::arr();
+				one.push("add");
+				one.push(P.pfx[g.below(P.pfx.size())].json());
+				edits.push(one);
+			}
+			if (rl[(size_t)n]) {
+				J ex = J::obj();
+				J pre = J::arr();
+				if (g.chance(600)) {
+					J r = J::arr();
+					r.push("restart");
+					r.push((long long)g.below(65536));
+					r.push((long long)g.below(1000));
+					pre.push(r);
+					for (auto &e : edits.a)
+						pre.push(e);
+				} else {
+					for (auto &e : edits.a)
+						pre.push(e);
+					J r = J::arr();
+					r.push("drophist");
+					r.push(1);
+					pre.push(r);
+					J b2 = J::arr();
+					b2.push("bump");
+					pre.push(b2);
+					J r2 = J::arr();
+					r2.push("drophist");
+					r2.push(1);
+					pre.push(r2);
+				}
+				ex["pre"] = pre;
+				script.push(ex); // answered with Cache Reset
+				J good = J::obj();
+				good["order"] = (long long)(g.next() & 0xffffffff);
+				idx[(size_t)ci][(size_t)n] = (int)script.size();
+				script.push(good); // the reload itself
+			} else {
+				J ex = J::obj();
+				ex["pre"] = edits;
+				ex["order"] = (long long)(g.next() & 0xffffffff);
+				idx[(size_t)ci][(size_t)n] = (int)script.size();
+				script.push(ex);
+			}
+		}
+		scripts[(size_t)ci] = script;
+		c["opens"] = J::arr();
+		caches.push(c);
+	}
+	// rendezvous: at every poll the answer that is applied by one socket waits for the other's
+	for (int n = 1; n <= npolls; n++) {
+		if (!g.chance(850))
+			continue;
+		// the socket with the shorter path (no reload) waits for the one that reloads; with equal paths either
+		int waiter = reload0[(size_t)n] == reload1[(size_t)n] ? (int)g.below(2) : (reload0[(size_t)n] ? 1 : 0);
+		int other = 1 - waiter;
+		J h = J::obj();
+		h["sock"] = other;
+		h["xi"] = idx[(size_t)other][(size_t)n];
+		h["before"] = (long long)g.pick(std::vector<long long>{0, 0, 0, 24, 60, 200}); // released this many bytes before the end of the other answer
+		h["tail"] = (long long)g.pick(std::vector<long long>{1, 4, 24, 60});
+		h["max_s"] = (long long)g.pick(std::vector<long long>{20, 40});
+		scripts[(size_t)waiter][(size_t)idx[(size_t)waiter][(size_t)n]]["hold"] = h;
+	}
+	for (int ci = 0; ci < 2; ci++)
+		caches[(size_t)ci]["script"] = scripts[(size_t)ci];
+	plan["caches"] = caches;
+	J chunk = J::obj();
+	chunk["mode"] = g.pick(std::vector<const char *>{"all", "rand"});
+	chunk["seed"] = (long long)(g.next() & 0x3fffffffffffffffull);
+	plan["chunk"] = chunk;
+	J lat = J::obj();
+	lat["seed"] = (long long)(g.next() & 0x3fffffffffffffffull);
+	lat["min_ms"] = (long long)g.pick(std::vector<long long>{1, 20, 900});
+	lat["jitter_ms"] = 0;
+	plan["lat"] = lat;
+	plan["oper"] = J::arr();
+	J end = J::obj();
+	end["mode"] = "converge";
+	end["max_s"] = 120ll * 86400ll;
+	plan["end"] = end;
+	return plan;
+}
+
 } // namespace
 
 J gen_world(uint64_t seed, const J &opts)
 {
 	Rng g(seed_label(seed, "gen-world"));
 	std::string focus = opts.gets("focus", "C03");
+	if (opts.geti("pair", 0))
+		return gen_world_pair(g, seed, opts);
 	J plan = J::obj();
 	plan["scn"] = "world";
 	plan["seed"] = (long long)(seed & 0x3fffffffffffffffull);
